@@ -101,6 +101,14 @@ def r1(ctx, r):
     w = search(snd, ("entry",), "exit", stop=lambda x: x in enq, eh=False, edge_ok=lambda b, si: not (b.cond is not None and show(b.cond).replace(" ", "") in ("n==0",) and b.edge_label(si) is True))
     r.expect(bool(enq) and w is None, snd, None, "send does not enqueue", "a path through TcpEngine::send accepts data without enqueueing a send command", witness=witness_str(snd, w),
              okdesc="send(): every non-empty payload is enqueued")
+    # … and as ONE command: the command queue's lock is taken per enqueue, so a payload spread over several commands can be
+    # interleaved with another thread's send on the same session
+    r.instance()
+    w2 = None
+    for a in enq:
+        w2 = w2 or search(snd, a, lambda x: x in enq, eh=False)
+    r.expect(w2 is None, snd, enq[0] if enq else None, "one send, several commands", "a path through TcpEngine::send enqueues more than one command for one payload (%s): _cmdMutex is released between them, so another thread's send "
+             "on the same session can land in between — the peer receives the two payloads interleaved" % (witness_str(snd, w2) if w2 else ""), okdesc="send(): at most one command per call")
 
 
 # ------------------------------------------------------------------ R2
